@@ -1,24 +1,46 @@
-(* The link graph of Convert.get_constraints, strand-oriented layout, written declaratively over
-   symbolic nodes (a strand position, or offset x of numbered object num), in the order in which
-   `seed` creates nodes and links; `same_graph` compares it with the graph `seed` returns. *)
+(* The link graph of Convert.get_constraints, in both layouts, written declaratively over symbolic
+   nodes (a strand position, a position of a structure, or offset x of numbered object num), in the
+   order in which `seed` creates nodes and links; `same_graph` compares it with the graph `seed`
+   returns. *)
 From Coq Require Import List String Ascii Arith Bool Lia.
 From PC Require Import Base.Codes Comp.Syntax Comp.Compile Design.Propagate Design.Designer.
 Import ListNotations.
 Local Open Scope list_scope.
 
-Inductive dnode := DPos (n : string) (o : nat) | DAux (num x : nat).
+Inductive dnode := DPos (n : string) (o : nat) | DInst (sn : string) (x : nat) | DAux (num x : nat).
 Definition dlink := (dnode * dnode)%type.
 
 Section D.
 Variable p : pspec.
 Variable lay : layout.
+Variable so : bool.                                   (* structure-oriented layout? *)
 
+Definition strand_len (n : string) : nat := match afind (p_strands p) n with Some (_, l, _) => l | None => 0 end.
+Definition struct_names (sn : string) : list string := match afind (p_structs p) sn with Some (names, _, _) => names | None => [] end.
 Definition tstart_of (n : string) : nat := match afind (l_tstart lay) n with Some s => s | None => 0 end.
-Definition enc (n : dnode) : nat := match n with DPos s o => tstart_of s + o | DAux num x => aux lay p num x end.
+Definition enc (n : dnode) : nat :=
+  match n with
+  | DPos s o => tstart_of s + o
+  | DInst sn x => match struct_index lay p true sn (struct_names sn) x with Some i => i | None => 0 end
+  | DAux num x => aux lay p num x
+  end.
+
+(* structure layout: a strand's own positions are those of its first occurrence in a structure *)
+Fixpoint occ_offset (names : list string) (n : string) (off : nat) : option nat :=
+  match names with [] => None | m :: r => if String.eqb m n then Some off else occ_offset r n (off + strand_len m) end.
+Fixpoint first_inst_in (sts : list (string * (list string * list sym * nat))) (n : string) : option (string * nat) :=
+  match sts with
+  | [] => None
+  | (sn, (names, _, _)) :: r => match occ_offset names n 0 with Some off => Some (sn, off) | None => first_inst_in r n end
+  end.
+Definition spos (n : string) (o : nat) : dnode :=
+  if so then match first_inst_in (p_structs p) n with Some (sn, off) => DInst sn (off + o) | None => DPos n o end
+  else DPos n o.
 
 (* nodes with their initial template code *)
 Definition pos_nodes : list (dnode * ascii) :=
-  flat_map (fun '(n, (_, len, _)) => map (fun x => (DPos n x, Nc)) (seq 0 len)) (p_strands p).
+  if so then flat_map (fun '(sn, (_, _, len)) => map (fun x => (DInst sn x, Nc)) (seq 0 len)) (p_structs p)
+  else flat_map (fun '(n, (_, len, _)) => map (fun x => (DPos n x, Nc)) (seq 0 len)) (p_strands p).
 Fixpoint base_nodes (bs : list (string * list ascii)) (num : nat) : list (dnode * ascii) :=
   match bs with
   | [] => []
@@ -36,7 +58,6 @@ Definition nb : nat := 2 * List.length (p_bases p).
 Definition d_nodes : list (dnode * ascii) := pos_nodes ++ base_nodes (p_bases p) 0 ++ sup_nodes (p_sups p) nb.
 
 (* complement links: target base pairs, then every object's reversed view *)
-Definition strand_len (n : string) : nat := match afind (p_strands p) n with Some (_, l, _) => l | None => 0 end.
 (* position x of a structure (strand breaks not counted) as (strand, offset) *)
 Fixpoint walk_sym (names : list string) (x : nat) : option (string * nat) :=
   match names with
@@ -47,6 +68,7 @@ Definition bond_links : list dlink :=
   flat_map (fun '(sn, (names, s, _)) =>
       match get_bonds s with
       | OK bs => flat_map (fun '(x, y) =>
+                   if so then [(DInst sn x, DInst sn y)] else
                    match walk_sym names x, walk_sym names y with
                    | Some (n1, o1), Some (n2, o2) => [(DPos n1 o1, DPos n2 o2)]
                    | _, _ => [] end) bs
@@ -59,7 +81,15 @@ Fixpoint view_links (lens : list nat) (num : nat) : list dlink :=
 Definition d_wc : list dlink :=
   bond_links ++ view_links (map (fun bt => List.length (snd bt)) (p_bases p)) 0 ++ view_links (map (fun s => snd (snd s)) (p_sups p)) nb.
 
-(* equality links: equal statements, the items of every super-sequence, the items of every strand *)
+(* equality links: (structure layout) every occurrence of a strand in a structure equals the strand's
+   own positions; equal statements, the items of every super-sequence, the items of every strand *)
+Fixpoint occ_links (sn : string) (names : list string) (offset : nat) : list dlink :=
+  match names with
+  | [] => []
+  | n :: r => map (fun x => (spos n x, DInst sn (offset + x))) (seq 0 (strand_len n)) ++ occ_links sn r (offset + strand_len n)
+  end.
+Definition inst_links : list dlink :=
+  if so then flat_map (fun '(sn, (names, _, _)) => occ_links sn names 0) (p_structs p) else [].
 Definition equal_links : list dlink :=
   flat_map (fun eqlist =>
       match eqlist with
@@ -87,8 +117,8 @@ Definition sup_item_links : list dlink :=
       | Some num => item_links items 0 (fun o => DAux num o)
       | None => [] end) (p_sups p).
 Definition strand_item_links : list dlink :=
-  flat_map (fun '(n, (items, _, _)) => item_links items 0 (fun o => DPos n o)) (p_strands p).
-Definition d_eq : list dlink := equal_links ++ sup_item_links ++ strand_item_links.
+  flat_map (fun '(n, (items, _, _)) => item_links items 0 (fun o => spos n o)) (p_strands p).
+Definition d_eq : list dlink := inst_links ++ equal_links ++ sup_item_links ++ strand_item_links.
 
 (* comparison with the graph seed returns: same nodes in the same order with the same initial codes, same links in the same order *)
 Fixpoint pairs_eqb (a b : list (nat * nat)) : bool :=
